@@ -317,7 +317,7 @@ def check_C15(tier, replay=None):
 
 # ------------------------------------------------------------------------- C02
 
-MEMBER_DEVS = ("D08", "D09", "D10", "D11", "D12", "D13", "D14", "D23a", "D23c", "D30")
+MEMBER_DEVS = ("D08", "D09", "D10", "D11", "D12", "D13", "D14", "D23a", "D23c", "D30", "D32")
 
 
 def check_C02(tier, replay=None):
@@ -660,7 +660,7 @@ def c01_wide(R, tier="thorough"):
     """C01 over the schema sets of the other bounded instances, through generator and rustc: the recursive slice in the
     quick tier, a sample of all of them in the thorough tier"""
     import crpipe
-    plan = [("c02rec", "MC_C02", {"Slice": '"recursive"'}, ["Emit"], 1)] if tier == "quick" else [("c02pos", "MC_C02", {"Slice": '"positions"'}, ["Emit"], 6), ("c02rec", "MC_C02", {"Slice": '"recursive"'}, ["Emit"], 1),
+    plan = [("c02rec", "MC_C02", {"Slice": '"recursive"'}, ["Emit"], 1), ("c09", "MC_C09", {}, ["Emit"], 40)] if tier == "quick" else [("c02pos", "MC_C02", {"Slice": '"positions"'}, ["Emit"], 6), ("c02rec", "MC_C02", {"Slice": '"recursive"'}, ["Emit"], 1),
             ("c02top", "MC_C02", {"Slice": '"toplevel"'}, ["Emit"], 2), ("c02hom", "MC_C02", {"Slice": '"homonym"'}, ["Emit"], 1),
             ("c02nest", "MC_C02", {"Slice": '"nested"'}, ["Emit"], 4),
             ("c08", "MC_C08", {"MaxDepth": "2", "Kinds": "<- AllKindsX"}, ["Emit"], 12), ("c09", "MC_C09", {}, ["Emit"], 5)]
@@ -677,7 +677,7 @@ def c01_wide(R, tier="thorough"):
     total = 0
     for label, vocab, cases, events in crpipe.compile_only("c01x", sources):
         traces = crpipe.write_traces("C01x_" + label, vocab, cases, {str(k): v for k, v in events.items()}, shards=min(4, len(cases)))
-        dev = [d for d in z.dev_set() if d in ("D31",)]
+        dev = [d for d in z.dev_set() if d in ("D31", "D33")]
         viol, known, stale, _ = trace_run(R, "Trace_C01x", cfg("TraceSpec", {"Dev": tla_set(dev)}, post="Accepted"), traces, "T_C01x_" + label)
         R.viol += viol
         R.stale += stale
